@@ -436,6 +436,19 @@ func (e *Env) ErrCallbacks() int64 {
 	return n
 }
 
+// SentinelCallbacks counts logged OnWatchedError invocations that carried the fence sentinel.
+func (e *Env) SentinelCallbacks() int64 {
+	e.mu.Lock()
+	defer e.mu.Unlock()
+	n := int64(0)
+	for _, ev := range e.cbLog {
+		if ev.Kind == "err" && containsStr(ev.Err, ErrSentinel.Error()) {
+			n++
+		}
+	}
+	return n
+}
+
 // Quiesce = FenceMonitor then FenceCallbacks: afterwards every install made
 // before the call has been announced and every queued callback has run.
 func (e *Env) Quiesce(ctx context.Context) bool {
